@@ -818,7 +818,7 @@ func min64(a, b int64) int64 {
 	return b
 }
 
-var dblTexts = []string{"0.0", "1.5", "-2.25", ".5", "+3.125", "100.0", "0.001", "-.75", "12345.678"}
+var dblTexts = []string{"0.0", "1.5", "-2.25", ".5", "+3.125", "100.0", "0.001", "-.75", "12345.678", "-9223372036854775808.0", "9223372036854775808.0"}
 var dblExpTexts = []string{"1e5", "2.5e3", "1E-3", "-4.0e2", "1.5e+10", ".5e1", "7e0", "1e23", "1.7976931348623157e308"}
 
 // ConstRefText spells a reference from file `from` to a constant definition.
